@@ -11,7 +11,7 @@ def pool(tier):
             (2, 1, 1, 2, 3), (1, 2, 2, 1, 2), (3, 3, 1, 2, 1), (2, 2, 3, 1, 2), (4, 2, 1, 2, 1), (2, 4, 2, 1, 1),
             (5, 2, 1, 5, 1), (2, 5, 6, 1, 1),
             # sizes beyond 16 (dimension, batch, number of points): thresholds of sorting / chunking idioms
-            (20, 18, 1, 2, 1), (17, 19, 2, 1, 2), (2, 2, 1, 20, 1), (2, 3, 18, 1, 20)]
+            (20, 18, 1, 2, 1), (17, 19, 2, 1, 2), (2, 2, 1, 20, 1), (2, 3, 18, 1, 20), (2, 2, 1, 1, 600)]
     if tier == "thorough":
         base += [(1, 3, 1, 4, 1), (4, 1, 3, 1, 2), (3, 1, 1, 1, 2), (1, 4, 1, 1, 1), (4, 3, 1, 3, 1), (3, 4, 1, 2, 2),
                  (4, 4, 2, 1, 1), (1, 1, 1, 4, 2), (1, 1, 4, 1, 1), (2, 2, 1, 4, 1), (3, 3, 3, 1, 2), (4, 4, 1, 2, 1),
